@@ -4,10 +4,10 @@ import vlib
 import seqxrun
 
 
-def build():
-    lib = vlib.build_lib("asan")
+def build(flavour="asan"):
+    lib = vlib.build_lib(flavour)
     src = [os.path.join(vlib.VERIF, "engine", "vfs", "vfs.cpp")]
-    return vlib.build_exe("vfs", src, "asan", lib, extra_flags=["-I" + os.path.join(vlib.VERIF, "engine", "vfs")],
+    return vlib.build_exe("vfs", src, flavour, lib, extra_flags=["-I" + os.path.join(vlib.VERIF, "engine", "vfs")],
                           link_flags=["-rdynamic", "-lz", "-ldl"])
 
 
